@@ -57,7 +57,7 @@ fn ctx_strings_upto(ctx: &mut Ctx, max_len: usize, f: &mut dyn FnMut(&mut Ctx, &
     }
 }
 
-pub const EDIT_CHARS: &[char] = &['0', '1', '9', 'a', 'Z', '-', '+', '.', 'v', 'V', ' ', '\t', '\n', '\0', 'é', 'Ł', 'ű', '_', 'x', '*', '中', '\u{a0}', '\u{3000}', '\u{2028}'];
+pub const EDIT_CHARS: &[char] = &['0', '1', '9', 'a', 'Z', '-', '+', '.', 'v', 'V', ' ', '\t', '\n', '\0', 'é', 'Ł', 'ű', '_', 'x', '*', '中', '\u{a0}', '\u{3000}', '\u{2028}', '\u{0663}', '\u{ff17}', '\u{00b2}'];
 
 /// canonical corpus for the one-edit neighbourhood
 pub fn canonical_corpus(seed: u64, n: usize) -> Vec<String> {
